@@ -600,6 +600,7 @@ const (
 	hStore
 	hMerge
 	hHavocSet
+	hFrame // lazily framed view: under cond, families outside `set` equal those of `pre` on objects older than oldNow
 )
 
 type Heap struct {
@@ -611,6 +612,9 @@ type Heap struct {
 	parents []*Heap
 	set     map[string]bool // family names (exact) or prefixes ending in '*'
 	memo    map[string]string
+	cond    string
+	pre     *Heap
+	oldNow  string
 }
 
 func (vc *VC) newHeap(kind int) *Heap {
@@ -685,6 +689,19 @@ func (vc *VC) lookup(h *Heap, fam string) string {
 			t = vc.declConst(fmt.Sprintf("%s@%d", fam, h.id), srt)
 		} else {
 			t = vc.lookup(h.parent, fam)
+		}
+	case hFrame:
+		t = vc.lookup(h.parent, fam)
+		if !inSet(h.set, fam) && !strings.HasPrefix(fam, "GV_") {
+			p := vc.lookup(h.pre, fam)
+			if p != t {
+				if !strings.HasPrefix(srt, "(Array Int ") {
+					vc.assert(imp(h.cond, eq(t, p)))
+				} else {
+					x := q(vc.freshName("bv.f"))
+					vc.assert(imp(h.cond, "(forall (("+x+" Int)) (! (=> (< (birth "+x+") "+h.oldNow+") (= (select "+t+" "+x+") (select "+p+" "+x+"))) :pattern ((select "+t+" "+x+"))))"))
+				}
+			}
 		}
 	case hMerge:
 		ts := make([]string, len(h.parents))
@@ -768,6 +785,8 @@ func (vc *VC) changedBetween(from, to *Heap, acc map[string]bool, seen map[*Heap
 		for k := range to.set {
 			acc[k] = true
 		}
+		return vc.changedBetween(from, to.parent, acc, seen)
+	case hFrame:
 		return vc.changedBetween(from, to.parent, acc, seen)
 	case hMerge:
 		ok := true
@@ -855,6 +874,9 @@ func (vc *VC) isGhostFam(fam string) bool {
 		return false
 	}
 	if _, ok := vc.S.Ghosts[fam[2:]]; ok {
+		return true
+	}
+	if strings.HasPrefix(fam, "H_iface.") {
 		return true
 	}
 	name := fam[2:]
